@@ -39,9 +39,11 @@ ObsApply(o, e) ==
     [] e.e = "CloseCall"   -> ObsCloseCall(o)
     [] e.e = "CloseReturn" -> ObsCloseReturn(ObsSpool(o, "close", ToSet(e.pending), ToSet(e.broken)))
     [] e.e = "Dispatch"    -> LET o1 == ObsDispatch(o, e.ent, e.now)
-                              IN IF e.res = "temp" THEN ObsSched(o1, e.next, e.ndue) ELSE ObsTerminal(o1, e.m)
+                              IN IF e.res = "temp" THEN ObsSched(o1, e.next, e.ndue)
+                                 ELSE IF e.res = "panic" THEN ObsAttemptPanic(o1, e.m)
+                                 ELSE ObsTerminal(o1, e.m)
     [] e.e = "Panic"       -> ObsPanic(o)
-    [] e.e = "Restart"     -> ObsRestart(o)
+    [] e.e = "Restart"     -> ObsRestart(o, e.now, e.pid)
     [] e.e = "End"         -> ObsEnd(ObsSpool(o, "end", ToSet(e.pending), ToSet(e.broken)), ToSet(e.hung), e.now)
     [] OTHER               -> o
 
@@ -49,7 +51,7 @@ Publish(d, o) ==
   TLCSet(1, TLCGet(1) \cup {[t |-> tno, k |-> k, drift |-> d, driftAt |-> 0, viol |-> o.viol, dev |-> Dev(o)]})
 Reached(n) == TLCSet(2, [TLCGet(2) EXCEPT ![k] = IF @ < n THEN n ELSE @])
 
-DummyCfg == [due |-> << >>, close |-> FALSE, retry |-> {}, par |-> 1, hdr |-> {}]
+DummyCfg == [due |-> << >>, close |-> FALSE, retry |-> {}, par |-> 1, hdr |-> {}, panic |-> {}]
 
 TInit ==
   /\ InitWith(DummyCfg)
@@ -59,7 +61,7 @@ TInit ==
 TReset ==
   /\ IsEv("Cfg")
   /\ LET c == [due |-> Ev.due, close |-> Ev.close, retry |-> ToSet(Ev.retry), par |-> Ev.par,
-               hdr |-> ToSet(Ev.hdr)] IN
+               hdr |-> ToSet(Ev.hdr), panic |-> ToSet(Ev.panic)] IN
        /\ cfg' = c /\ now' = 0
        /\ stopped' = FALSE /\ slots' = {} /\ updClosed' = FALSE /\ doneClosed' = FALSE
        /\ apc' = [p \in Adders |-> IF p \in DOMAIN c.due THEN "ab" ELSE "idle"]
